@@ -181,7 +181,8 @@ def run(ctx):
 
     def base(schema):
         d = udbl.fresh_user_dir(tpl, os.path.join(root, "base-" + schema))
-        rc, out, err = udbl.run_script(exe, tpl, d, ["S 1 %s" % schema] + ["L 1 %s" % x for x in pools[schema]])
+        extra_inputs = [y for pair in udbl.DELCOMP.get(schema, []) for y in pair]
+        rc, out, err = udbl.run_script(exe, tpl, d, ["S 1 %s" % schema] + ["L 1 %s" % x for x in pools[schema] + extra_inputs])
         shutil.rmtree(d, ignore_errors=True)
         g = udbl.group_output(out)
         return schema, {l.split()[1]: l.split()[2:] for ls in g.values() for l in ls if l.startswith("L ")}, rc
@@ -315,7 +316,15 @@ def run(ctx):
             for l in sum((out[i] for i in range(a + 1, b)), []):
                 if " commit=" in l and "commit=none" not in l:
                     committed = l.split("commit=")[1].split()[0]
-            if kind in ("select", "top", "abbr") and committed and len(commits) == 1:
+            if kind == "punctbs":
+                # judged like a selection: the phrase committed by F (command a + 3), not the punctuation mark after it
+                committed = None
+                for l in out.get(a + 3, []):
+                    if " commit=" in l and "commit=none" not in l:
+                        committed = l.split("commit=")[1].split()[0]
+                commits = commits[:1]
+                st["commit_punct_backspace_checks"] = st.get("commit_punct_backspace_checks", 0) + 1
+            if kind in ("select", "top", "abbr", "punctbs") and committed and len(commits) == 1:
                 ci, cev = commits[0]
                 calls = h.extra[main]["CALLS"].get(ci, [])
                 nseg = int(cev[4])
@@ -365,6 +374,25 @@ def run(ctx):
                 if any(vis_after.get(kk) != "1" for kk in counted_keys):
                     viol.append(("model:learned-not-visible", "the model does not hold a counted key as visible after the commit was flushed",
                                  _replay(h, kind, x, a, b, committed, before, after), False))
+            elif kind == "delcomp":
+                # a learned long phrase deleted from the list of a four-syllable prefix, where it is a word completion
+                yline = next((l for l in out.get(a + 7, []) if l.startswith("Y ")), None)
+                if not committed or yline is None or "notfound" in yline:
+                    st["delcomp_not_listed"] = st.get("delcomp_not_listed", 0) + 1
+                    continue
+                prefix = dict(udbl.DELCOMP[h.schema])[x]
+                st["delete_completion_checks"] = st.get("delete_completion_checks", 0) + 1
+                nontrivial.add((h.schema, x, committed, "delete-completion"))
+                after_prefix, after_long = lst(a + 9), lst(a + 10)
+                if after_prefix is not None and committed in after_prefix and committed not in baseline[h.schema].get(prefix, []):
+                    viol.append(("delete:%s:completion-still-offered" % h.schema,
+                                 "a learned phrase deleted where it was offered as a word completion (a four-syllable prefix of its code typed) is still offered for that prefix",
+                                 _replay(h, kind, x, a, b, committed, lst(a + 5), after_prefix), True))
+                if after_long is not None and committed in after_long and committed not in baseline[h.schema].get(x, []) \
+                        and after_long.index(committed) != 0:
+                    viol.append(("delete:%s:still-offered" % h.schema,
+                                 "a learned phrase deleted from a completion list is still offered for its full code although neither the static dictionary nor sentence composition yields it",
+                                 _replay(h, kind, x, a, b, committed, lst(a + 4), after_long), True))
             elif kind == "delete" and len(deletes) == 1:
                 deleted = None
                 for l in out.get(a + 2, []):
